@@ -166,8 +166,8 @@ Fixpoint enc_ok (fuel: nat) (E: env) (t: ty) (v: value) (j: json) {struct fuel} 
         match v, j with
         | VDict kvs, JObj ms =>
             all2 (fun kv m => match kv, m with (kv', vv), (key, x) =>
-                    (if str_wired n E kt then enc_ok n E kt kv' (JStr key)
-                     else existsb (fun kj => enc_ok n E kt kv' kj && String.eqb key (key_str kj)) (key_cands E kv'))
+                    (enc_ok n E kt kv' (JStr key)
+                     || existsb (fun kj => enc_ok n E kt kv' kj && String.eqb key (key_str kj)) (key_cands E kv'))
                     && enc_ok n E vt vv x end) kvs ms
         | _, _ => false end
     | TUnion ts => existsb (fun t' => enc_ok n E t' v j) ts
